@@ -153,6 +153,16 @@ impl RealCore {
                 }
             }
             Op::UnsubscribeLs(c, tid) => ans_unit(wb.unsubscribe_ls(cid(*c), *tid)),
+            Op::DropReceiver(c, tid) => {
+                self.subs.remove(&(*c, *tid));
+                self.closed.insert((*c, *tid));
+                Ans::unit()
+            }
+            Op::DropLsReceiver(c, tid) => {
+                self.ls.remove(&(*c, *tid));
+                self.ls_closed.insert((*c, *tid));
+                Ans::unit()
+            }
             Op::Lock(c, k) => ans_unit(wb.lock(k.clone(), cid(*c)).await),
             Op::AcquireLock(c, k) => match wb.acquire_lock(k.clone(), cid(*c)).await {
                 Ok(rx) => {
